@@ -6,6 +6,7 @@ import (
 	"crypto/rand"
 	"crypto/rsa"
 	"math/big"
+	"net"
 	"time"
 
 	"github.com/zmap/zcrypto/encoding/asn1"
@@ -56,6 +57,19 @@ func Realise(c *x509.Certificate) *x509.Certificate {
 		t.PolicyIdentifiers = nil
 		t.ExtraExtensions = append(append([]pkix.Extension{}, t.ExtraExtensions...), ext)
 	}
+	// subjectAltName / issuerAltName: zcrypto's encoder writes DNS names, e-mail addresses and IP addresses
+	// only (and no issuerAltName at all); URIs and the IAN lists are encoded by hand
+	explicit := func(oid string) bool {
+		e, ok := c.ExtensionsMap[oid]
+		return ok && e.Value != nil
+	}
+	if len(c.URIs) > 0 && !explicit("2.5.29.17") {
+		t.ExtraExtensions = append(t.ExtraExtensions, pkix.Extension{Id: asn1.ObjectIdentifier{2, 5, 29, 17}, Value: generalNames(c.EmailAddresses, c.DNSNames, c.URIs, c.IPAddresses)})
+		t.DNSNames, t.EmailAddresses, t.IPAddresses, t.URIs = nil, nil, nil, nil
+	}
+	if len(c.IANDNSNames)+len(c.IANEmailAddresses)+len(c.IANURIs)+len(c.IANIPAddresses) > 0 && !explicit("2.5.29.18") {
+		t.ExtraExtensions = append(t.ExtraExtensions, pkix.Extension{Id: asn1.ObjectIdentifier{2, 5, 29, 18}, Value: generalNames(c.IANEmailAddresses, c.IANDNSNames, c.IANURIs, c.IANIPAddresses)})
+	}
 	// extensions the model names through the extension map (present flag, criticality, raw value) are
 	// encoded verbatim; the encoder lets them override what it would derive from the typed fields, and the
 	// parser then derives the typed fields from the raw value (or rejects the certificate)
@@ -69,7 +83,8 @@ func Realise(c *x509.Certificate) *x509.Certificate {
 		}
 		v := e.Value
 		if v == nil {
-			v = []byte{}
+			// the path only asked whether the extension is present: the typed fields decide its content
+			continue
 		}
 		t.ExtraExtensions = append(t.ExtraExtensions, pkix.Extension{Id: id, Critical: e.Critical, Value: v})
 	}
@@ -90,6 +105,38 @@ func Realise(c *x509.Certificate) *x509.Certificate {
 }
 
 var oidCertPolicies = asn1.ObjectIdentifier{2, 5, 29, 32}
+
+// generalNames encodes a GeneralNames SEQUENCE (rfc822Name [1], dNSName [2], uniformResourceIdentifier [6],
+// iPAddress [7]) keeping the order of each list.
+func generalNames(emails, dns, uris []string, ips []net.IP) []byte {
+	var b cryptobyte.Builder
+	b.AddASN1(cbasn1.SEQUENCE, func(b *cryptobyte.Builder) {
+		for _, n := range dns {
+			n := n
+			b.AddASN1(cbasn1.Tag(2).ContextSpecific(), func(b *cryptobyte.Builder) { b.AddBytes([]byte(n)) })
+		}
+		for _, n := range emails {
+			n := n
+			b.AddASN1(cbasn1.Tag(1).ContextSpecific(), func(b *cryptobyte.Builder) { b.AddBytes([]byte(n)) })
+		}
+		for _, n := range uris {
+			n := n
+			b.AddASN1(cbasn1.Tag(6).ContextSpecific(), func(b *cryptobyte.Builder) { b.AddBytes([]byte(n)) })
+		}
+		for _, ip := range ips {
+			raw := []byte(ip)
+			if v4 := ip.To4(); v4 != nil && len(ip) != 16 {
+				raw = v4
+			}
+			b.AddASN1(cbasn1.Tag(7).ContextSpecific(), func(b *cryptobyte.Builder) { b.AddBytes(raw) })
+		}
+	})
+	der, err := b.Bytes()
+	if err != nil {
+		panic(AssumeFailed{})
+	}
+	return der
+}
 
 func parseOID(s string) asn1.ObjectIdentifier {
 	var out asn1.ObjectIdentifier
